@@ -68,3 +68,7 @@ pub fn next_layer_circ(_b: &serde_json::Value, _lookups: &[p3_lookup::Lookups<F>
 pub fn fri_arg_mutants(_air: crate::kit::airs::TAir, _b: &serde_json::Value) -> Result<Vec<(String, crate::kit::CircV)>, String> {
     Ok(vec![])
 }
+
+pub fn next_layer_circ_foreign_key(_b: &serde_json::Value, _lookups: &[p3_lookup::Lookups<F>]) -> Result<Vec<(String, crate::kit::CircV)>, String> {
+    Ok(vec![])
+}
